@@ -534,6 +534,8 @@ func init() {
 					c := nearTwinDefaultCase(k)
 					c.Args = append(c.Args, "--extra-imports")
 					return c
+				} else if k -= 8; k < 6 {
+					return quotedNameParityCase(k)
 				}
 				return nil
 			}
